@@ -203,6 +203,38 @@ def det_literal_batch(lang, drv=None):
                 n += 1
                 if r['error'] is not None or r['out'] != want:
                     raise Violation(lang + '-literal-not-verbatim', {'query': text, 'literal_content': content, 'got': r['out'], 'error': r['error'], 'expected': want})
+    # a literal whose content ends with a backslash, followed by a second literal in the same quote style
+    for first in ('C:\\', 'end\\', '\\', 'a\\\\'):
+        for content in contents[:len(pieces)]:
+            for qc in ("'", '"'):
+                text = 'select %s, %s, a1' % (lit_text(first, qc), lit_text(content, qc))
+                want = [[first, content, 'x'], [first, content, 'z']]
+                r = run(text)
+                n += 1
+                if r['error'] is not None or r['out'] != want:
+                    raise Violation(lang + '-literal-not-verbatim', {'query': text, 'literal_content': [first, content], 'got': r['out'], 'error': r['error'], 'expected': want})
+    return n
+
+
+def det_synonym_batch():
+    """Deterministic part of the synonym clause: JOIN = INNER JOIN, LEFT JOIN = LEFT OUTER JOIN (any letter case), TOP = LIMIT, over join tables
+    that are empty / narrower than their header / full, with select lists that expose the width of the join side."""
+    n = 0
+    A = [['apple', '1'], ['pear', '2'], ['fig', '3']]
+    for B in ([], [['pear']], [['pear', 'p2', 'p3'], ['fig', 'f2', 'f3']], [['pear', 'p2', 'p3'], ['pear', 'q2', 'q3']]):
+        for hdr in (True, False):
+            a_names, b_names = (['name', 'n'], ['key', 'x', 'y']) if hdr else (None, None)
+            for sel in ('*', 'b.*', 'bNF, a1', 'a1, b2', 'a.*, b.*', 'a1, b3, NR'):
+                for tail in ('', ' order by a1', ' where NR > 1'):
+                    for pair in (('JOIN', 'INNER JOIN', 'inner join', 'Inner  Join'), ('LEFT JOIN', 'LEFT OUTER JOIN', 'left outer join', 'Left  Outer\tJoin', 'left join')):
+                        results = []
+                        for kw in pair:
+                            r = engine.run_table('select %s %s b on a1 == b1%s' % (sel, kw, tail), copy.deepcopy(A), copy.deepcopy(B), a_names, b_names)
+                            results.append((r['out'], r['header'], r['error'] and r['error']['cls']))
+                            n += 1
+                        if any(x != results[0] for x in results[1:]):
+                            bad = next(i for i, x in enumerate(results) if x != results[0])
+                            raise Violation('synonym-changes-result', {'select': sel, 'tail': tail, 'join_table': B, 'header': hdr, 'spellings': [pair[0], pair[bad]], 'results': [results[0], results[bad]]})
     return n
 
 
@@ -215,6 +247,9 @@ def shard_literals(shard, nshards, tier, seed, scratch):
             n = det_literal_batch('py')
             stats.evaluations += n
             stats.bump('deterministic-literal-queries', n)
+            n2 = det_synonym_batch()
+            stats.evaluations += n2
+            stats.bump('deterministic-synonym-queries', n2)
         except Violation as v:
             fails.append({'clause': v.clause, 'detail': v.detail, 'case': {'kind': 'det-literals', 'lang': 'py'}})
     for f in fails:
@@ -322,6 +357,7 @@ def replay(case, clause=None):
                 drv.close()
         else:
             det_literal_batch('py')
+            det_synonym_batch()
         return
     if 'q2' in case:
         drv = jsdriver.Driver()
